@@ -261,7 +261,7 @@ theorem C01_stepAll (cfg : Cfg) (hwf : cfg.WF) (beh : Beh) (w : World) (k : Nat)
       rcases hd with rfl | hd
       · exact absurd hop (hdes hm)
       · exact absurd hop (hd.1 _)
-    | destroyAuto c name hm hget =>
+    | destroyAuto c name _ hm hget =>
       obtain ⟨f1, f2⟩ := C01_finalExit ⟨cfg, beh, op.inst, k⟩ { core := c }
       rw [World.get_put_same, sig_append, sig_api, List.append_nil, hget, f2]
       exact LifePath.deactivate (ha hm _ c hget) (LifePath.nil _)
@@ -283,7 +283,7 @@ theorem stepAll_autoActive (cfg : Cfg) (hwf : cfg.WF) (beh : Beh) (w : World) (k
       rw [onCore_fst]
       exact autoActive_put ha _ _ (fun hm c0 e => by cases e; exact e3 hm)
     | destroyManual c name hop hm hget => exact autoActive_put ha _ _ (fun _ c0 e => by cases e)
-    | destroyAuto c name hm hget => exact autoActive_put ha _ _ (fun _ c0 e => by cases e)
+    | destroyAuto c name _ hm hget => exact autoActive_put ha _ _ (fun _ c0 e => by cases e)
     | save c name o hget => exact ha
 
 /-- the lifted statement, from any reachable world -/
@@ -530,7 +530,7 @@ theorem C04_history_guard_bound (cfg : Cfg) (hL : cfg.L ≤ 255) (beh : Beh) (w 
       rw [this, List.append_nil]
       exact apiStep_guard_bound (env := ⟨cfg, beh, op.inst, k⟩) hL hf
     | destroyManual c name hop hm hget => exact nil
-    | destroyAuto c name hm hget =>
+    | destroyAuto c name _ hm hget =>
       rw [guardSig_append, guardSig_step_of_noGuard (noGuard_finalExit _)]
       exact nil
     | save c name o hget => exact nil
@@ -649,7 +649,7 @@ theorem C09_history_at_most_one (cfg : Cfg) (beh : Beh) (w : World) (k : Nat) (o
     cases hs with
     | rejected name => exact ⟨nil, fun _ _ => rfl⟩
     | destroyManual c name hop hm hget => exact ⟨nil, fun _ _ => rfl⟩
-    | destroyAuto c name hm hget =>
+    | destroyAuto c name _ hm hget =>
       have : outcomes ((finalExit ⟨cfg, beh, op.inst, k⟩ { core := c }).2 ++
           [Ev.api op.inst k name (apiObs cfg (finalExit ⟨cfg, beh, op.inst, k⟩ { core := c }).1.core)]) = [] := by
         rw [outcomes_append, outcomes_step_of_silent (silentG_finalExit hp hx _)]; rfl
@@ -789,7 +789,7 @@ theorem stepAll_noPlan (cfg : Cfg) (beh : Beh) (w : World) (k : Nat) (op : Op) (
       | destroyManual c name hop' hm hget =>
         refine ⟨fun c' hc' => ?_, none_out (es := [Ev.api op.inst k name (apiObs cfg c)]) rfl⟩
         rw [World.get_put_same] at hc'; cases hc'
-      | destroyAuto c name hm hget =>
+      | destroyAuto c name _ hm hget =>
         refine ⟨fun c' hc' => ?_, none_out ?_⟩
         · rw [World.get_put_same] at hc'; cases hc'
         · rw [List.filter_append, silentG_finalExit methodPred_isOutcome exclCore_isOutcome _ _]
@@ -867,7 +867,7 @@ theorem run_allEv (cfg : Cfg) (beh : Beh) (P : Ev → Prop) (hP : ∀ i k, EnvPr
         · exact apiStep_allEv (hP op.inst k) hf _ e he
         · simp only [List.mem_singleton] at he; rw [he]; exact hapi _ _ _ _
       | destroyManual c name hop hm hget => simp only [List.mem_singleton] at he; rw [he]; exact hapi _ _ _ _
-      | destroyAuto c name hm hget =>
+      | destroyAuto c name _ hm hget =>
         rw [List.mem_append] at he
         rcases he with he | he
         · exact allEv_finalExit (hP op.inst k) _ e he
@@ -929,7 +929,7 @@ theorem C05_history_events_in_calls (cfg : Cfg) (beh : Beh) (ops : List Op) :
               · exact apiStep_allEv hP hf _ e he
               · simp only [List.mem_singleton] at he; rw [he]; intro k vis o e; cases e
             | destroyManual c name hop hm hget => simp only [List.mem_singleton] at he; rw [he]; intro k vis o e; cases e
-            | destroyAuto c name hm hget =>
+            | destroyAuto c name _ hm hget =>
               rw [List.mem_append] at he
               rcases he with he | he
               · exact allEv_finalExit hP _ e he
@@ -1130,7 +1130,7 @@ theorem stepAll_prevOk (cfg : Cfg) (hwf : cfg.WF) (beh : Beh) (w : World) (k : N
       | constructAuto => exact prevOk_of_cleared rfl
       | _ => exact hw _ _ hget
     | destroyManual c name hop hm hget => exact put _ _ (fun c0 e => by cases e)
-    | destroyAuto c name hm hget => exact put _ _ (fun c0 e => by cases e)
+    | destroyAuto c name _ hm hget => exact put _ _ (fun c0 e => by cases e)
     | save c name o hget => exact hw
 
 /-- **C11 over whole histories — the history names where the machine is**: in every state any history can
